@@ -307,6 +307,7 @@ containing_blk (void *p)
     if (blks[i].live && (char *) p >= blks[i].p && (char *) p < blks[i].p + (blks[i].n ? blks[i].n : 1)) return i;
   return -1;
 }
+static int free_ctx_parse = -1;	/* the parse whose blocks may be released now (-1: not judged) */
 static void
 cb_parse_free (void *p)
 {
@@ -316,6 +317,8 @@ cb_parse_free (void *p)
   ev_free++;
   if (i < 0) { printf ("%sev fbad unknown\n", prefix); ev_bad++; return; }
   if (!blks[i].live) { printf ("%sev fbad double %d\n", prefix, i); ev_bad++; return; }
+  /* C13: a block handed to parse_free was returned by parse_alloc during the same yaep_parse */
+  if (free_ctx_parse >= 0 && blks[i].parse != free_ctx_parse) { printf ("%sev fbad foreign %d %d\n", prefix, i, blks[i].parse); ev_bad++; }
   if (!quiet_ev) printf ("%sev f %d %d\n", prefix, i, blks[i].parse);
   blks[i].live = 0;
   free (p);
@@ -463,7 +466,9 @@ do_parse (int h, const char *alloc_kind, const char *free_kind, int hookflags, i
   yaep_verif_out = stdout; yaep_verif_flags = hookflags; yaep_verif_prefix = prefix;
 #endif
   in_parse_call = 1;
+  free_ctx_parse = cur_parse;
   rc = G_PARSE (handles[h], cb_read_token, cb_syntax_error, af, ff, &root, &amb);
+  free_ctx_parse = -1;
   in_parse_call = 0;
 #ifdef YAEP_VERIF
   yaep_verif_flags = 0;
@@ -513,7 +518,7 @@ do_freetree (int h, int slot, int walk_first)
     }
   n_termcb = 0;
   cur_parse = cur_parse;	/* frees are attributed by block */
-  if (r->freekind == 1) G_FREE_TREE (r->root, cb_parse_free, cb_term);
+  if (r->freekind == 1) { free_ctx_parse = r->parse_id; G_FREE_TREE (r->root, cb_parse_free, cb_term); free_ctx_parse = -1; }
   else if (r->freekind == 2) G_FREE_TREE (r->root, NULL, cb_term);
   else { printf ("%sfreetree skipped\n", prefix); return; }
   r->freed = 1;
